@@ -863,6 +863,20 @@ func Apply(ctx context.Context, repo gitstore.Storer, signRSLEntry bool) error {
 		return fmt.Errorf("staged policy is invalid: %w", err)
 	}
 
+	if !policyTip.IsZero() {
+		// Verification requires every applied policy state to be trusted by
+		// the policy state it replaces (root of trust signatures, no rollback
+		// of metadata). Check the same here so that we do not apply a policy
+		// that verification subsequently rejects.
+		currentState, err := LoadCurrentState(ctx, repo, PolicyRef)
+		if err != nil {
+			return fmt.Errorf("failed to load applied policy state: %w", err)
+		}
+		if err := currentState.VerifyNewState(ctx, state); err != nil {
+			return fmt.Errorf("staged policy is not trusted by applied policy: %w", err)
+		}
+	}
+
 	// Update the reference for the base to point to the new commit
 	if err := repo.SetReference(PolicyRef, policyStagingTip); err != nil {
 		return fmt.Errorf("failed to set new policy reference: %w", err)
